@@ -1,4 +1,4 @@
-\* thorough: the repaired cache is transparent; capacity 3, 4 blocks, restarts
+\* thorough: the repaired cache is transparent; 3 keys, capacity 3, 4 blocks (eviction), restarts
 CONSTANTS NK = 3  Cap = 3  MaxH = 4  Restarts = TRUE  RecordHist = FALSE  SimDepth = 0
 CONSTANT Vals <- V1
 CONSTANT Dev <- DevNone
